@@ -109,8 +109,9 @@ CHECKS['C13'] = dict(
          'sources, z3 shows: a row is deleted iff its condition is non-zero, new cells equal the formula of their row, one '
          'column is scaled, folds partition the rows without separating groups, samples/extractions are existing rows by '
          'position, counts are right.',
-    note='Trusted: engine contract; random sources may return any value of their range. Outside: flatten_database / '
-         'generate_flat_panel_dataframe (value hashing in groupby), larger tables, more than 2 folds.',
+    note='Trusted: engine contract; random sources may return any value of their range. Flattening is checked on tables whose '
+         'cells carry distinct concrete tags (pandas groupby hashes values): which cell ends up in which column, 5 variants x one '
+         'earlier removal of any row. Outside: larger tables, more than 2 folds.',
     design='DESIGN.md 1/C13')
 
 CHECKS['C05'] = dict(
